@@ -17,6 +17,34 @@ def rapid(name, test, quick, thorough, **kw):
     return d
 
 CHECKS = {
+    "C19": {
+        "level": "exploration",
+        "phases": [
+            rapid("prop", "TestProp",
+                  {"checks": 1500, "shards": 12, "timeout": 400},
+                  {"checks": 24000, "shards": 16, "timeout": 2400}),
+        ],
+    },
+    "C01": {
+        "level": "exploration",
+        "phases": [
+            rapid("prop", "TestProp",
+                  {"checks": 1200, "shards": 12, "timeout": 400},
+                  {"checks": 16000, "shards": 16, "timeout": 2400}),
+            plain("giant", "TestGiant",
+                  {"shards": 2, "timeout": 400},
+                  {"shards": 5, "timeout": 2400}, replay_test="TestReplayGiant"),
+        ],
+    },
+    "C03": {
+        "level": "exploration",
+        "exhaustive_phases": ["table"],
+        "phases": [
+            plain("table", "TestTable",
+                  {"shards": 12, "timeout": 400},
+                  {"shards": 16, "timeout": 2400}),
+        ],
+    },
     "C14": {
         "level": "exploration",
         "phases": [
